@@ -44,7 +44,7 @@ pub enum ViewOp {
     SliceFull,
     Uninit,
     /// `slice(a..b).slice(c..d)` kept as `Slice<Slice<_>>`, or flattened with `.flatten()`
-    Nested { a: u16, b: u16, c: u16, d: u16, flatten: bool },
+    Nested { a: u16, b: u16, c: u16, d: u16, flatten: bool, inner_open: bool, outer_open: bool },
 }
 
 #[derive(Debug, Clone, Copy, Serialize, Deserialize, PartialEq)]
@@ -242,9 +242,10 @@ fn build_root(r: &Root) -> Option<RootBuf> {
             for (i, x) in full.iter_mut().enumerate() {
                 x.write(PRE(i));
             }
-            b.set_capacity(cap_req);
+            // record a length first, then narrow the capacity: set_capacity must clamp the length
             let c = b.buf_capacity();
             unsafe { SetLen::set_len(&mut b, len.min(c)) };
+            b.set_capacity(cap_req);
             RootBuf::Pool(b)
         }
     })
@@ -258,12 +259,43 @@ struct Geo {
     cap: usize,
 }
 
+/// Reference model of the view geometry, written from the rustdoc: `slice(b..e)` is Rust slicing of
+/// the parent's region (end clipped to the parent's capacity), `uninit()` is the parent's
+/// uninitialised tail and keeps following it.
+#[derive(Debug, Clone, Copy)]
+enum MOp {
+    Slice { b: usize, e: Option<usize> },
+    Uninit,
+}
+
+/// (offset in root, capacity, initialised length) of the view described by `ops`
+fn model_window(ops: &[MOp], root_cap: usize, root_len: usize) -> (usize, usize, usize) {
+    let (mut off, mut cap, mut len) = (0usize, root_cap, root_len);
+    for op in ops {
+        match *op {
+            MOp::Slice { b, e } => {
+                let ncap = e.unwrap_or(cap).min(cap).saturating_sub(b);
+                let nlen = e.unwrap_or(len).min(len).saturating_sub(b);
+                off += b;
+                cap = ncap;
+                len = nlen;
+            }
+            MOp::Uninit => {
+                off += len;
+                cap -= len;
+                len = 0;
+            }
+        }
+    }
+    (off, cap, len)
+}
+
 fn addr(p: *const u8) -> usize {
     p as usize
 }
 
 /// Check the per-state invariants of a view from what it reports.
-fn check_view(v: &mut V, geo: &Geo, root_len: usize, fixed_len_root: bool, stage: &str, kind: &str) -> Result<(usize, usize, usize), Outcome> {
+fn check_view(v: &mut V, geo: &Geo, root_len: usize, fixed_len_root: bool, stage: &str, kind: &str, mops: &[MOp]) -> Result<(usize, usize, usize), Outcome> {
     let (ip, il) = {
         let s = <V as IoBuf>::as_init(v);
         (addr(s.as_ptr()), s.len())
@@ -301,6 +333,19 @@ fn check_view(v: &mut V, geo: &Geo, root_len: usize, fixed_len_root: bool, stage
             );
         }
     }
+    // exact geometry against the reference model of the documented slicing semantics
+    let (moff, mcap, mlen) = model_window(mops, geo.cap, if fixed_len_root { geo.cap } else { root_len });
+    if ul != mcap || il != mlen || (ul > 0 && up - geo.base != moff) {
+        return fail(
+            "window-differs-from-model",
+            format!(
+                "view reports writable root+{}..+{ul} with {il} initialised; slicing semantics give root+{moff}..+{mcap} with {mlen} initialised (ops {:?}, root len {root_len} cap {})",
+                up.wrapping_sub(geo.base),
+                mops,
+                geo.cap
+            ),
+        );
+    }
     Ok((up, ul, il))
 }
 
@@ -337,7 +382,8 @@ pub fn run_view(case: &ViewCase) -> Outcome {
     let mut labels: Vec<String> = vec![];
     let mut depth = 0;
     let mut applied: Vec<ViewOp> = vec![];
-    if let Err(o) = check_view(&mut top, &geo, root_len, fixed_len_root, "root", "root") {
+    let mut mops: Vec<MOp> = vec![];
+    if let Err(o) = check_view(&mut top, &geo, root_len, fixed_len_root, "root", "root", &[]) {
         return o;
     }
     for op in &case.chain {
@@ -347,21 +393,39 @@ pub fn run_view(case: &ViewCase) -> Outcome {
             ViewOp::Slice { a, b, over } => {
                 let begin = mono_range(a, 0, len);
                 let end = mono_range(b, begin, cap.max(begin)) + if over > 200 { (over - 200) as usize } else { 0 };
+                mops.push(MOp::Slice { b: begin, e: Some(end) });
                 V::Slice(top.slice(begin..end))
             }
-            ViewOp::SliceFrom { a } => V::Slice(top.slice(mono_range(a, 0, len)..)),
-            ViewOp::SliceToIncl { b } => V::Slice(top.slice(..=mono_range(b, 0, cap))),
-            ViewOp::SliceFull => V::Slice(top.slice(..)),
-            ViewOp::Uninit => V::Uninit(top.uninit()),
-            ViewOp::Nested { a, b, c, d, flatten } => {
+            ViewOp::SliceFrom { a } => {
+                let begin = mono_range(a, 0, len);
+                mops.push(MOp::Slice { b: begin, e: None });
+                V::Slice(top.slice(begin..))
+            }
+            ViewOp::SliceToIncl { b } => {
+                let e = mono_range(b, 0, cap);
+                mops.push(MOp::Slice { b: 0, e: Some(e + 1) });
+                V::Slice(top.slice(..=e))
+            }
+            ViewOp::SliceFull => {
+                mops.push(MOp::Slice { b: 0, e: None });
+                V::Slice(top.slice(..))
+            }
+            ViewOp::Uninit => {
+                mops.push(MOp::Uninit);
+                V::Uninit(top.uninit())
+            }
+            ViewOp::Nested { a, b, c, d, flatten, inner_open, outer_open } => {
                 let begin = mono_range(a, 0, len);
                 let end = mono_range(b, begin, cap.max(begin));
-                let s1 = top.slice(begin..end);
+                let s1 = if inner_open { top.slice(begin..) } else { top.slice(begin..end) };
+                mops.push(MOp::Slice { b: begin, e: if inner_open { None } else { Some(end) } });
                 let l1 = s1.buf_len();
-                let c1 = (end - begin).min(cap - begin.min(cap));
+                let c1 = { let mut t = s1; let c = t.buf_capacity(); (t, c) };
+                let (s1, c1) = c1;
                 let b2 = mono_range(c, 0, l1);
-                let e2 = mono_range(d, b2, c1.max(b2));
-                let s2 = s1.slice(b2..e2);
+                let e2 = mono_range(d, b2, c1.max(b2) + 3); // may exceed the inner window: clipped by contract
+                let s2 = if outer_open { s1.slice(b2..) } else { s1.slice(b2..e2) };
+                mops.push(MOp::Slice { b: b2, e: if outer_open { None } else { Some(e2) } });
                 if flatten {
                     V::Slice(s2.flatten())
                 } else {
@@ -373,7 +437,7 @@ pub fn run_view(case: &ViewCase) -> Outcome {
         depth += 1;
         applied.push(op.clone());
         let stage = format!("after view #{depth} {:?}", op);
-        if let Err(o) = check_view(&mut top, &geo, root_len, fixed_len_root, &stage, kind_of(&applied)) {
+        if let Err(o) = check_view(&mut top, &geo, root_len, fixed_len_root, &stage, kind_of(&applied), &mops) {
             return o;
         }
     }
@@ -406,7 +470,7 @@ pub fn run_view(case: &ViewCase) -> Outcome {
     let mut fills_done = 0;
     for (fi, f) in case.fills.iter().enumerate() {
         let stage = format!("before fill #{fi}");
-        let (up, ul, il) = match check_view(&mut top, &geo, root_len, fixed_len_root, &stage, kind) {
+        let (up, ul, il) = match check_view(&mut top, &geo, root_len, fixed_len_root, &stage, kind, &mops) {
             Ok(x) => x,
             Err(o) => return o,
         };
@@ -480,7 +544,7 @@ pub fn run_view(case: &ViewCase) -> Outcome {
             );
         }
         let stage = format!("after fill #{fi} ({:?}, k={k}, written at root+{woff})", f.how);
-        let (_, _, il2) = match check_view(&mut top, &geo, root_len, fixed_len_root, &stage, kind) {
+        let (_, _, il2) = match check_view(&mut top, &geo, root_len, fixed_len_root, &stage, kind, &mops) {
             Ok(x) => x,
             Err(o) => return o,
         };
@@ -558,7 +622,7 @@ fn op_strategy() -> impl Strategy<Value = ViewOp> + Clone {
         1 => any::<u16>().prop_map(|b| ViewOp::SliceToIncl { b }),
         1 => Just(ViewOp::SliceFull),
         3 => Just(ViewOp::Uninit),
-        2 => (any::<u16>(), any::<u16>(), any::<u16>(), any::<u16>(), any::<bool>()).prop_map(|(a, b, c, d, flatten)| ViewOp::Nested { a, b, c, d, flatten }),
+        3 => (any::<u16>(), any::<u16>(), any::<u16>(), any::<u16>(), any::<bool>(), any::<bool>(), any::<bool>()).prop_map(|(a, b, c, d, flatten, inner_open, outer_open)| ViewOp::Nested { a, b, c, d, flatten, inner_open, outer_open }),
     ]
 }
 
